@@ -167,6 +167,8 @@ func UseSites() []UseSite {
 		// twins and shadowing
 		{Tag: "twin PlainF()", Stmt: "{q}PlainF()", Kind: UKNone, TONL: true, Core: true},
 		{Tag: "twin s.Keep()", Stmt: "s.Keep()", Kind: UKNone, TONL: true},
+		{Tag: "twin s2.Reset() same name other type", Stmt: "s2.Reset()", Kind: UKNone, TONL: true, Core: true},
+		{Tag: "twin s2.ResetP() same name other type", Stmt: "s2.ResetP()", Kind: UKNone, TONL: true},
 		{Tag: "twin Plain{}", Stmt: "_ = {q}Plain{}", Kind: UKNone, TONL: true},
 		{Tag: "twin var Plain", Stmt: "var $v {q}Plain; _ = $v", Kind: UKNone, TONL: true},
 		{Tag: "shadow local Helper", Stmt: "func() { Helper := func() int { return 0 }; _ = Helper() }()", Kind: UKNone, TONL: true, Core: true},
@@ -339,6 +341,13 @@ func usePreludeD(w *lineWriter, m UseMix) {
 		w.add("")
 		w.add("type S struct{ K int }")
 		w.add("")
+		w.add("// S2 has methods with the same names as S's annotated ones, without annotations.")
+		w.add("type S2 struct{ K int }")
+		w.add("")
+		w.add("func (s S2) Reset() {}")
+		w.add("")
+		w.add("func (s *S2) ResetP() {}")
+		w.add("")
 	})
 	fHelper := chunk(func() {
 		w.add("// Helper helps.")
@@ -463,7 +472,7 @@ func RenderUse(s *UseSpec) *UseRendered {
 			w.add(ind + "// an ordinary comment")
 		}
 	}
-	params := "(s " + q + "S, sp *" + q + "S, y int)"
+	params := "(s " + q + "S, sp *" + q + "S, y int, s2 " + q + "S2)"
 	for bi, b := range s.Blocks {
 		w := files[b.File]
 		pre(w, "")
